@@ -170,7 +170,9 @@ def body(check):
     check.guarded("DT-LOCAL", "integration", lambda: local_update(check))
     check.guarded("DT-LOCAL", "integration (implicit)", lambda: local_implicit(check))
     res, info = analyse_solve(check.proj)
-    report(check, res, ("DRV-DT-MIN",))
+    from ..driver_rules import analyse_entry_points
+    analyse_entry_points(check.proj, res)
+    report(check, res, ("DRV-DT-MIN", "DRV-FORWARD"))
     # "a solve USES the minimum as its global step": the time of the field advances by exactly the step it is given --
     # every copy the driver and the stages make carries the time unmodified (same obligations as C07 FIELD-DEEPCOPY)
     from .c07 import field_deepcopy
